@@ -496,6 +496,14 @@ def run(F, chk):
                 if rt not in F.recs or not F.derives_from(rt, "nifly::NiObject"):
                     continue
                 vid = v["id"]
+                # `NiNode& dest = *destNode;` / `auto p = destNode.get();` stand for the clone as well
+                vids = {vid}
+                for _ in range(3):
+                    for d2 in walk(fn["body"]):
+                        if d2["k"] == "Decl":
+                            for v2 in d2.get("vars", []):
+                                if v2["id"] not in vids and is_node(v2.get("init")) and any(_roots_at(v2["init"], x_) for x_ in vids):
+                                    vids.add(v2["id"])
                 added = any(n["k"] == "Call" and n.get("short") == "AddBlock" and any(_roots_at(a, vid) or any(
                     x["k"] == "Ref" and x.get("id") == vid for x in walk(a)) for a in n.get("args", [])) for n in walk(fn["body"]))
                 through_children = any(n["k"] == "Call" and n.get("short") == "CloneChildren" for n in walk(fn["body"]))
@@ -518,9 +526,10 @@ def run(F, chk):
                     elif n["k"] == "OpCall" and n.get("op") == "=" and n.get("args"):
                         tgt = n["args"][0]
                     if tgt is not None:
-                        m_ = _first_member(tgt, vid)
-                        if m_:
-                            handled.add(m_)
+                        for x_ in vids:
+                            m_ = _first_member(tgt, x_)
+                            if m_:
+                                handled.add(m_)
                 for m_, via in sorted(refs.items()):
                     n9 += 1
                     ok = m_ in handled
